@@ -1084,3 +1084,161 @@ func assertionImplied(info *types.Info, fd *ast.FuncDecl, ta *ast.TypeAssertExpr
 	}
 	return false, ""
 }
+
+// CheckLoadErrorsFatal: a package that was loaded with errors is never used —
+// with pkgs[0].Errors non-empty the loader returns a non-nil error on every path.
+func CheckLoadErrorsFatal(run *core.Run, prog *load.Program) {
+	f, _, info := moqFunc(prog, load.PkgRegistry, "pkgInfoFromPath")
+	if f == nil {
+		run.Undecided("G-LOAD/errors-fatal", "role", "internal/registry/registry.go", "pkgInfoFromPath not found")
+		return
+	}
+	// the expression of the error list, and locals that are exactly it
+	isErrs := func(e ast.Expr) bool {
+		s := types.ExprString(ast.Unparen(e))
+		if strings.HasSuffix(s, "].Errors") || strings.HasSuffix(s, ".Errors") {
+			return true
+		}
+		if id, ok := ast.Unparen(e).(*ast.Ident); ok {
+			v := info.ObjectOf(id)
+			exact := false
+			ast.Inspect(f.Decl.Body, func(n ast.Node) bool {
+				if as, ok := n.(*ast.AssignStmt); ok && len(as.Lhs) == len(as.Rhs) {
+					for i, l := range as.Lhs {
+						if lid, ok := ast.Unparen(l).(*ast.Ident); ok && info.ObjectOf(lid) == v {
+							rs := types.ExprString(as.Rhs[i])
+							exact = strings.HasSuffix(rs, ".Errors")
+						}
+					}
+				}
+				return true
+			})
+			return exact
+		}
+		return false
+	}
+	dec := func(cond ast.Expr) (bool, bool) {
+		var ev func(e ast.Expr) (bool, bool)
+		ev = func(e ast.Expr) (bool, bool) {
+			e = ast.Unparen(e)
+			if u, ok := e.(*ast.UnaryExpr); ok && u.Op == token.NOT {
+				t, fl := ev(u.X)
+				return fl, t
+			}
+			if be, ok := e.(*ast.BinaryExpr); ok {
+				switch be.Op {
+				case token.LAND:
+					lt, lf := ev(be.X)
+					rt, rf := ev(be.Y)
+					return lt && rt, lf || (lt && rf)
+				case token.LOR:
+					lt, lf := ev(be.X)
+					rt, rf := ev(be.Y)
+					return lt || (lf && rt), lf && rf
+				}
+				// len(errs) ⋈ k with len >= 1 assumed
+				for _, side := range [][2]ast.Expr{{be.X, be.Y}} {
+					c, ok := ast.Unparen(side[0]).(*ast.CallExpr)
+					if !ok || len(c.Args) != 1 {
+						continue
+					}
+					if id, ok := c.Fun.(*ast.Ident); !ok || id.Name != "len" || !isErrs(c.Args[0]) {
+						continue
+					}
+					tv := info.Types[side[1]]
+					if tv.Value == nil {
+						continue
+					}
+					k, _ := constant.Int64Val(tv.Value)
+					switch be.Op {
+					case token.NEQ:
+						if k == 0 {
+							return true, false
+						}
+					case token.EQL:
+						if k == 0 {
+							return false, true
+						}
+					case token.GTR:
+						if k == 0 {
+							return true, false
+						}
+					}
+				}
+			}
+			return true, true
+		}
+		return ev(cond)
+	}
+	r := f.Explore(0, 0, cfgx.Cuts{Decide: dec})
+	bad := 0
+	for _, ex := range r.Exits {
+		rs, isRet := ex.Node.(*ast.ReturnStmt)
+		if !isRet || len(rs.Results) != 2 {
+			bad++
+			continue
+		}
+		if id, ok := ast.Unparen(rs.Results[1]).(*ast.Ident); ok {
+			if _, isNil := info.Uses[id].(*types.Nil); isNil {
+				// `return pkgs[0], nil`: reachable although the package has errors?
+				bad++
+			}
+		}
+	}
+	// the only nil-error return must be unreachable under the assumption; count nil-error returns reached
+	run.Check("G-LOAD/errors-fatal", "pkgInfoFromPath", prog.Pos(f.Decl.Pos()), bad == 0, fmt.Sprintf("pkgInfoFromPath can return a package without an error on %d path(s) although the package was loaded with errors (a filtered or re-counted error list decides instead of the list itself): moq then generates from a package that does not compile and exits 0", bad))
+}
+
+// CheckLoopsPureUntilExit: an unconditional `for` terminates by an argument
+// about values that the loop itself must not disturb: a statement that writes
+// to anything but a local is only allowed on a path that leaves the loop.
+func CheckLoopsPureUntilExit(run *core.Run, prog *load.Program) {
+	funcsOf(prog, func(pkgPath string, info *types.Info, fd *ast.FuncDecl, fn *types.Func) {
+		ast.Inspect(fd.Body, func(n ast.Node) bool {
+			fs, ok := n.(*ast.ForStmt)
+			if !ok || fs.Cond != nil {
+				return true
+			}
+			f := cfgx.New(info, fd)
+			fname := load.FuncName(fn)
+			nbad := 0
+			ast.Inspect(fs.Body, func(x ast.Node) bool {
+				as, ok := x.(*ast.AssignStmt)
+				if !ok {
+					return true
+				}
+				heap := false
+				for _, l := range as.Lhs {
+					switch ast.Unparen(l).(type) {
+					case *ast.SelectorExpr, *ast.IndexExpr, *ast.StarExpr:
+						heap = true
+					}
+				}
+				if !heap {
+					return true
+				}
+				cn := nodeHolding(f, as)
+				b, i := locate(f, cn)
+				if b < 0 {
+					return true
+				}
+				r := f.Explore(b, i+1, cfgx.Cuts{})
+				again := false
+				if fs.Post != nil && r.Passed(fs.Post) {
+					again = true
+				}
+				if len(fs.Body.List) > 0 {
+					if first := nodeHolding(f, fs.Body.List[0]); first != nil && r.Passed(first) {
+						again = true
+					}
+				}
+				if again {
+					nbad++
+				}
+				return true
+			})
+			run.Check("G-PANIC/loop-pure-until-exit", fname, prog.Pos(fs.Pos()), nbad == 0, fmt.Sprintf("the condition-less loop in %s writes to non-local state on a path that iterates again (%d statements): the loop can change the very thing its exit test looks at and never terminate (e.g. an alias assigned before it is searched for finds itself)", fname, nbad))
+			return true
+		})
+	})
+}
